@@ -57,8 +57,11 @@ def replay_case(item):
     op, arg = c['op'], c['arg']
     links = [tuple_source(srcs)]
     appended_name = None
+    cc_name = 'cc'
     if op == 'concat':
-        links.append(DF.concatenate(dict(a=[], b=['c']), target=dict(name='cc'), resources=['r%d' % pkg[i - 1]['name'] for i in arg]))
+        if v.get('reuse_name') and arg:
+            cc_name = 'r%d' % pkg[arg[-1] - 1]['name']          # the target takes over the name of one of the resources it replaces
+        links.append(DF.concatenate(dict(a=[], b=['c']), target=dict(name=cc_name), resources=['r%d' % pkg[i - 1]['name'] for i in arg]))
     elif op == 'duplicate':
         links.append(DF.duplicate('r%d' % pkg[arg['s'] - 1]['name'], 'copy', duplicate_to_end=arg['toEnd'], batch_size=v['batch']))
     elif op == 'delete':
@@ -103,7 +106,7 @@ def replay_case(item):
     if drop is not None:
         keep = [i for i, x in enumerate(c['names']) if x != drop]
         c = dict(c, names=[c['names'][i] for i in keep], rows=[c['rows'][i] for i in keep])
-    want_names = [rname(x) for x in c['names']]
+    want_names = [cc_name if x == 0 else rname(x) for x in c['names']]
     if op == 'append':
         if len(got_names) != len(want_names) or got_names[:-1] != want_names[:-1]:
             return dict(ok=False, why='resources after the appended source differ', got=got_names, want=want_names)
@@ -351,7 +354,7 @@ def run():
     items = []
     for c in cases + big:
         items.append(dict(case=c, variant=dict(batch=r.choice([1, 2, 1000]), mutate=r.random() < 0.5, source=r.choice(['iterable', 'tuple', 'sources', 'load']),
-                                               preused=r.random() < 0.3)))
+                                               preused=r.random() < 0.3, reuse_name=r.random() < 0.3)))
     # two-step programs: the restructuring step followed by a delete_resource of one of its outputs
     for c in (cases + big):
         if c['op'] == 'duplicate' and r.random() < (0.3 if t == 'quick' else 1.0):
